@@ -2,7 +2,10 @@ module ksverif/harness
 
 go 1.17
 
-require github.com/kubeshark/base v0.0.0
+require (
+	github.com/kubeshark/base v0.0.0
+	github.com/ohler55/ojg v1.14.5
+)
 
 require (
 	github.com/alecthomas/participle/v2 v2.0.0-alpha7 // indirect
@@ -15,7 +18,6 @@ require (
 	github.com/mattn/go-colorable v0.1.13 // indirect
 	github.com/mattn/go-isatty v0.0.16 // indirect
 	github.com/mertyildiran/gqlparser/v2 v2.4.6 // indirect
-	github.com/ohler55/ojg v1.14.5 // indirect
 	github.com/pierrec/lz4/v4 v4.1.15 // indirect
 	github.com/rs/zerolog v1.28.0 // indirect
 	github.com/segmentio/kafka-go v0.4.38 // indirect
